@@ -236,7 +236,7 @@ pub(crate) fn add_int_to_float<W, R, T>(
         "to_float",
         XFuncSpec::new(&[&X_INT], X_FLOAT.clone()),
         ufunc!(Int, |a: &LazyBigint, rt: &RTCell<W, R, T>| {
-            let Some(ret) = a.to_f64() else {return Ok(Err(ManagedXError::new("Integer too large to convert to float", rt.clone())?))};
+            let Some(ret) = a.to_f64().filter(|f| f.is_finite()) else {return Ok(Err(ManagedXError::new("Integer too large to convert to float", rt.clone())?))};
             Ok(Ok(XValue::Float(
                 ret
             )))
